@@ -133,6 +133,32 @@ func c18Doc(g *Gen, text string, o normOpts, tags ...string) {
 			Desc: map[string]interface{}{"kind": "generic-view", "text": text, frontEnds[a].name: views[a], frontEnds[b].name: views[b]},
 			Tags: append([]string{"generic"}, tags...), Nontrivial: len(text) > 4})
 	}
+	// typed views of the unsigned settings of the fixed documents: the front-ends agree on what a
+	// uint64 field, a []uint64 entry and the Uint getter read
+	if strings.Contains(text, "zz_u") {
+		var tv [3]string
+		for i := range frontEnds {
+			if cfgs[i] == nil {
+				tv[i] = "error"
+				continue
+			}
+			var t struct {
+				U uint64   `config:"zz_u"`
+				L []uint64 `config:"zz_ul"`
+				I uint     `config:"zz_i"`
+			}
+			err := cfgs[i].Unpack(&t, opts...)
+			gu, gerr := cfgs[i].Uint("zz_u", -1, opts...)
+			gl, lerr := cfgs[i].Uint("zz_ul", 1, opts...)
+			tv[i] = fmt.Sprintf("%v %v %v unpack:%v | getter %v %v | indexed %v %v", t.U, t.L, t.I, err != nil, gu, gerr != nil, gl, lerr != nil)
+		}
+		for _, pr := range [][2]int{{0, 1}, {1, 2}} {
+			a, b := pr[0], pr[1]
+			g.Add(Case{Coq: fmt.Sprintf("CText %s %s %s", coqStr("unsigned targets "+frontEnds[a].name+"/"+frontEnds[b].name), coqStr(tv[a]), coqStr(tv[b])),
+				Desc: map[string]interface{}{"kind": "typed-view", "text": text, frontEnds[a].name: tv[a], frontEnds[b].name: tv[b]},
+				Tags: append([]string{"typed-unsigned"}, tags...), Nontrivial: true})
+		}
+	}
 	// WithFile: the same config, and errors about a setting name the file
 	fe := frontEnds[r.Intn(3)]
 	fname := filepath.Join(g.Out, fmt.Sprintf("doc_%d.%s", len(g.Cases), fe.name))
@@ -365,6 +391,8 @@ func genC18(g *Gen) {
 		`{"a.b": 1, "a": {"c": 2}, "l.0": "x", "zz_fault": "notanumber"}`,
 		`{"s": "${a}", "a": "v", "t": "$${x}", "zz_fault": "notanumber"}`,
 		`{"n": 1e3, "m": 1.0, "z": -0.0, "zz_fault": "notanumber"}`,
+		// integers of the upper half of the uint64 range that a float64 holds exactly, read into unsigned targets
+		`{"zz_u": 9223372036854775808, "zz_ul": [10000000000000000000, 9223372036854777856, 4294967296], "zz_i": 4611686018427387904, "zz_fault": "notanumber"}`,
 	} {
 		for _, o := range []normOpts{{}, {Sep: "."}, {Sep: ".", VarExp: true}} {
 			c18Doc(g, d, o, "fixed")
